@@ -202,7 +202,7 @@ func selfValidate(r *core.Report, repo, verif, goarch string) {
 		ID, Outcome, Detail string
 	}
 	results := make([]res, len(files))
-	sem := make(chan struct{}, 4)
+	sem := make(chan struct{}, 8) // each child needs about 1 GB and one core for most of its run
 	var wg sync.WaitGroup
 	for i, f := range files {
 		wg.Add(1)
